@@ -352,7 +352,11 @@ def lazy_faulting(rep, f):
                            "%s:%d" % (fn["file"], fn["line"]))
     rep.count(n)
     rep.ob("C17.d/scanned", "shared-class methods", n >= 600, "%d methods of %d shared classes scanned" % (n, len(shared)), "whole library")
-    # pure matching
+    pure_match_rule(rep, f, "C17.d/pure-match")
+
+
+def pure_match_rule(rep, f, rid):
+    W = ("write", "inc", "elemwrite")
     entry = ["RegularExpression::matches", "RegularExpression::tokenize", "RegularExpression::replace"]
     seen = set()
     work = list(entry)
@@ -374,7 +378,7 @@ def lazy_faulting(rep, f):
                     bad.append((q, x["f"], x["l"]))
     if len(seen) < 8:
         raise AnalysisBroken("RegularExpression matching closure shrank to %d functions" % len(seen))
-    rep.ob("C17.d/pure-match", "RegularExpression matching closure", not bad,
+    rep.ob(rid, "RegularExpression matching closure", not bad,
            "%d member functions reachable from matches/tokenize/replace assign no member of the expression" % len(seen) if not bad else
            "%s assigns %s at line %d: matching is no longer pure (shared compiled expressions race)" % bad[0], "src/xercesc/util/regx/RegularExpression.cpp")
 
